@@ -24,10 +24,10 @@ ASSUMPTIONS = ['R (mon/refbufr) is a correct reading of FM-94 for the shapes of 
                'floats compared within 4 ulp of the exact rational']
 BUDGET = {'quick': 45, 'thorough': 600}
 QUOTA = {'quick': 1100, 'thorough': 12000}   # random cases per shard
-REQUIRED = {'quick': {'evaluations': 2000, 'shape_cases_compared': 150, 'corpus_compared': 10,
-                      'compressed_compared': 300, 'r_self_ok': 1000},
-            'thorough': {'evaluations': 40000, 'shape_cases_compared': 150, 'corpus_compared': 100,
-                         'compressed_compared': 5000, 'r_self_ok': 20000}}
+REQUIRED = {'quick': {'evaluations': 2000, 'shape_cases_compared': 130, 'corpus_compared': 6, 'compressed_compared': 300,
+                      'r_self_ok': 1000},
+            'thorough': {'evaluations': 40000, 'shape_cases_compared': 130, 'corpus_compared': 62,
+                      'compressed_compared': 5000, 'r_self_ok': 20000}}
 
 
 def anchors():
